@@ -671,7 +671,9 @@ def w_rvs(r):
 def w_step(s):
     tail = [w_json(s._solver), w_json(s._solver_rtol), w_json(s._solver_atol), w_json(dict(s._tool_options))]
     if isinstance(s, PM.EstimationStep):
-        ders = [["raw", d] if isinstance(d, str) else ["tup", str(d)] for d in s._derivatives]
+        # a derivative is a tuple of symbols; an entry that is itself a str (what the pre-118f2d1 from_dict left
+        # there) is wired as its characters, which is what iterating it yields
+        ders = [[str(a) for a in d] for d in s._derivatives]
         return ["est", w_json(s._method), w_json(s._interaction), w_json(s._parameter_uncertainty_method),
                 w_json(s._evaluation), w_json(s._maximum_evaluations), w_json(s._laplace), w_json(s._isample),
                 w_json(s._niter), w_json(s._auto), w_json(s._keep_every_nth_iter), ders, w_json(s._predictions),
@@ -723,7 +725,7 @@ def retuple_model_dict(jd):
     """Put tuples back where the objects hold tuples and from_dict passes the value through."""
     jd = copy.deepcopy(jd)
     for s in jd.get("execution_steps", {}).get("steps", []):
-        for k in ("residuals", "predictions", "derivatives"):
+        for k in ("residuals", "predictions", "derivatives"):   # derivatives: rebuilt by from_dict since 118f2d1, harmless
             if isinstance(s.get(k), list):
                 s[k] = tuple(s[k])
     for c in jd.get("datainfo", {}).get("columns", []):
@@ -1083,9 +1085,16 @@ def run_case(case, drv):
         if not same:
             explained = False
             if has_derivs and name in ("steps", "model"):
-                explained = True
-                mon.append({"cls": "roundtrip-derivatives-stringified",
-                            "what": f"{cls.__name__}.from_dict(x.to_dict()) != x: EstimationStep.derivatives come back as str(tuple)"})
+                # only when the derivatives field itself fails to come back (fixed by /repo 118f2d1; kept so that a
+                # recurrence is reported under its own class)
+                st_b = back if name == "steps" else back.execution_steps
+                st_o = m.execution_steps
+                if len(st_b) != len(st_o) or any(getattr(a, "_derivatives", None) != getattr(b, "_derivatives", None)
+                                                 for a, b in zip(st_o, st_b)):
+                    explained = True
+                    mon.append({"cls": "roundtrip-derivatives-stringified",
+                                "what": f"{cls.__name__}.from_dict(x.to_dict()) != x: EstimationStep.derivatives "
+                                        f"{[getattr(a, '_derivatives', None) for a in st_o]} come back as {[getattr(b, '_derivatives', None) for b in st_b]}"})
             if nonnormal and name in ("statements", "model") and stable:
                 # the reloaded statements differ from the originals only in symengine's internal form of `nonnormal`
                 st_back = back if name == "statements" else back.statements
@@ -1116,7 +1125,7 @@ def run_case(case, drv):
             if fixed:
                 mon.append({"cls": "json-reload-list-for-tuple",
                             "what": f"{cls.__name__}.from_dict(json.loads(json.dumps(x.to_dict()))) != x only because JSON arrays "
-                                    "stay lists in tuple-valued fields (residuals/predictions/derivatives, categories, names)"})
+                                    "stay lists in tuple-valued fields (residuals/predictions, categories, names)"})
             else:
                 mon.append({"cls": "json-reload-differs", "what": f"{cls.__name__} reloaded from JSON text differs from the object reloaded from the dict beyond list/tuple"})
         tags.append("q:" + name)
